@@ -25,10 +25,19 @@ def check(pid, tier, args):
     if r.violated or not r.printed:
         raise vlib.Infra("ImageXform generation failed: %s" % r.violated)
     run.add_tlc("MC_ImageXform/gen (MaxW=3 MaxH=3 P<=5, 3 origins x 3 origins, margins, in place)", r)
+    # 2b. wide / tall configurations (513, 1025, 4097 columns; 300 rows): the contract's map printed directly
+    rw = vlib.tlc("MC_ImageXformWide", "MC_ImageXformWide.cfg", files=["ImageXformContract.tla"], heap="3g", timeout=1200)
+    if rw.violated or len(rw.printed) != rw.distinct:
+        raise vlib.Infra("wide configurations were not generated: %s" % rw.violated)
+    run.add_tlc("MC_ImageXformWide (Expected(cfg) of %d wide / tall configurations)" % len(rw.printed), rw)
+    run.cov["wide_configurations"] = len(rw.printed)
     sc = vlib.scratch()
     cases = os.path.join(sc, "cases_xform.ndjson")
     with open(cases, "w") as o:
         for c in r.printed:
+            o.write(json.dumps(c) + "\n")
+        for c in rw.printed:
+            c["wide"] = True
             o.write(json.dumps(c) + "\n")
     # the library's worker pool under the default GOMAXPROCS and under a small one (requested
     # parallelism larger than the processors available): the write map may depend on neither
